@@ -59,6 +59,9 @@ CLAIMED = {
  "C12": ("exploration", "proptest recursive data through every view/conversion route with a fingerprint comparison; proptest instances of derived structs rendered through ~150 template probes via derive and via serde plus a field-by-field ObjectView walk; enumerated boundary integers through six conversion routes",
          "Each generated datum is observed through &v, ValueCow Owned/Borrowed, to_value, as_view, Some/None, serde to_value/from_value (also into serde_json::Value for kind), JSON and YAML text and must answer type_name, truthy/default/empty/blank, is_*, scalar conversions, structure and printed form identically; struct instances with derive(ObjectView, ValueView, Serialize, Deserialize) must render identically through both routes and agree field by field; integers around i64/u64 limits must be rejected or carried as an equal float.",
          "Strings spelling the crate's date formats, State markers and NaN are excluded as data; enum *de*serialisation is declined by the crate with an error and is not asserted; floats are restricted to values serde_json parses exactly.", "4.12"),
+ "C02": ("exploration", "bounded-exhaustive filter x input-kind x argument-kind cube through real templates, tag attribute cube, strftime format enumeration + proptest random templates on random data; totality oracle (no panic, Ok/Err, UTF-8, render == render_to)",
+         "Every filter of the stdlib and of the jekyll/shopify/extra sets (names from the parser's reflection) on every value of a 44-value type-confused pool with every argument tuple of arity <=1 and arity 2 over a sub-pool (thorough: full pool); every loop/cycle/include/render/case/counter attribute position over 14 extreme values x 8 collection forms; every strftime format of <=3 (4) symbols incl. non-ASCII; random templates using every construct on random nested data. Oracle: never panics, returns Ok or Err, bytes valid UTF-8, render() == render_to().",
+         "Ranges/widths above 10^4 excluded as in the statement; hangs would show as the check not terminating (no watchdog yet); explosive random programs are discarded by a cost estimate.", "4.2"),
 }
 
 NOT_YET = {
